@@ -93,6 +93,8 @@ class RV:
                 addr = (x[base] + off) & M
                 if addr % size:
                     raise Violation('misaligned-access', '%s at 0x%x' % (src, addr))
+                if STACK_TOP - STACK_SIZE <= addr < x[2]:
+                    raise Violation('access-below-stack-pointer', '%s touches 0x%x while sp = 0x%x' % (src, addr, x[2]))
                 v = mem.load(addr, size, src)
                 if mn == 'lw' and self.xlen == 64:
                     v = self.sx(v, 32)
@@ -105,6 +107,8 @@ class RV:
                     raise Violation('misaligned-access', '%s at 0x%x' % (src, addr))
                 if base == 2 and addr >= STACK_TOP:
                     raise Violation('write-outside-allowed-memory', '%s stores above the entry stack pointer (caller frame)' % src)
+                if STACK_TOP - STACK_SIZE <= addr < x[2]:
+                    raise Violation('access-below-stack-pointer', '%s touches 0x%x while sp = 0x%x' % (src, addr, x[2]))
                 mem.store(addr, size, x[self.reg(ops[0])], src)
                 rd = 0
                 v = 0
